@@ -135,6 +135,9 @@ Exec(st, op) ==
          IF op.h \notin DOMAIN st.ents THEN [st |-> st, ev |-> Ev(st, [op |-> "Set", h |-> op.h, c |-> "r", v |-> op.v])]
          ELSE LET st2 == [st EXCEPT !.ents[op.h] = <<@[1], @[2], @[3], op.v>>] IN
               [st |-> st2, ev |-> Ev(st2, [op |-> "Set", h |-> op.h, c |-> "r", v |-> op.v])]
+    [] op.o = "retrieve" ->      \* MarkerAllocator::retrieve_entity called directly
+         LET r == Retrieve(st, op.m) IN
+         [st |-> r.st, ev |-> Ev(r.st, [op |-> "Retrieve", m |-> op.m, res |-> r.e])]
     [] op.o = "amaintain" ->     \* mapping rebuilt from the (entities, markers) join
          LET st2 == [st EXCEPT !.map = [m \in {st.ents[h][1][1] : h \in Marked(st)} |-> CHOOSE h \in Marked(st) : st.ents[h][1][1] = m]] IN
          [st |-> st2, ev |-> Ev(st2, [op |-> "AMaintain"])]
